@@ -17,6 +17,21 @@ def _SHARED_HTML(H):
     return _SH[H]
 
 
+class Maybe:
+    pass
+
+
+def _maybe(valid):
+    o = Maybe()
+    if valid:
+        o._repr_html_ = lambda: "<u>m</u>"
+    return o
+
+
+ABS = {15: {"opacity": "1.0", "z": "0.0", "n": "1", "m": "0", "hidden": "", "w": "2.0", "k": "2"}}      # shape -> attrs exactly
+BAD_SHAPES = {17}
+
+
 def shape_args(i, H):
     """gamma: argument shapes (children, attribute dicts, keyword attributes)."""
     span, HTML = H.tags.span, H.HTML
@@ -39,6 +54,12 @@ def shape_args(i, H):
         # a lone, already normalised TagList as the only child argument; one HTML() object as the value of two attributes
         ((H.TagList("only", span("k")),), {}),
         ((_SHARED_HTML(H), {"class": _SHARED_HTML(H)}), {"class_": "more", "style": _SHARED_HTML(H)}),
+        # equal numbers of different types (True / 1 / 1.0, False / 0 / 0.0) as attribute values
+        (({"opacity": 1.0, "z": 0.0},), {"n": 1, "m": 0, "hidden": True, "off": False, "w": 2.0, "k": 2}),
+        # a child that renders itself because THAT instance was given a _repr_html_ ...
+        ((_maybe(True),), {}),
+        # ... and another instance of the same class that was not: not a valid child (TypeError, like the Tag constructor)
+        ((_maybe(False),), {}),
     ]
     return shapes[(i - 1) % len(shapes)]
 
@@ -98,6 +119,11 @@ class C19(Prop):
             return rec
         except Exception as ex:  # noqa
             rec["exc"] = type(ex).__name__
+            return rec
+        if c["shape"] in ABS and dict(t.attrs) != ABS[c["shape"]]:
+            rec["eq"] = False
+            rec["name"] = t.name
+            rec["ws"] = bool(t.add_ws)
             return rec
         # every call creates its own element: a second identical call gives a distinct object that does not see what
         # was done to the first one in between
